@@ -98,8 +98,10 @@ claim("C01",
       "Decides, for every body of the five shipped crates, that each panic-capable construct found in MIR (overflow / division / bounds "
       "asserts, unwrap/expect/panic calls, precondition APIs such as indexing, Vec::remove, String::replace_range, step_by, "
       "Duration::from_secs_f64, block_on — also when passed as function values) is generated by an external macro, discharged by a "
-      "dominating guard, covered by a reviewed (function, kind, count, reason) table entry, or reported; plus evaluator totality and "
-      "recursion guards shared with C07. A new unguarded site anywhere is reported. Necessary condition for `never panics`.",
+      "dominating guard, covered by a reviewed (function, kind, count, reason) table entry, or reported; the classes include Display "
+      "implementations of dependencies that fail on their own (chrono formatter, itertools Format) reaching to_string/format!, and a few "
+      "documented panics of dependencies; plus evaluator totality and recursion guards shared with C07 (the depth counter is carried round "
+      "every cycle of the evaluator's call-graph SCC). A new unguarded site anywhere is reported. Necessary condition for `never panics`.",
       "Trusted: rustc MIR of a debug-assertions build; code generated by peg/cached/clap/tokio/tracing/thiserror/async-trait/strum macros; "
       "the one-line reasons in rules/c01_table.json (reviewed by reading the code; triage fuzzing of ~250k inputs found no panic at a "
       "tabled site). Not decided: termination of loops (one tokenizer spin was found by triage and fixed), stack exhaustion, panics "
@@ -118,8 +120,11 @@ claim("C04",
 claim("C06",
       "Decides that in the ordered choice of the ${…} grammar no shorter operator literal can swallow a longer one (`%` vs `%%`, `:` vs "
       "`:-`, …) and every listed operator is recognised; that the operator implementations contain no unreviewed panic-capable "
-      "construct (scoped C01 inventory); the unset-tolerance table is decided under C03.",
-      "Trusted: peg ordered-choice semantics; rustc MIR. Not decided: results equal bash; shortest/longest semantics of prefix/suffix removal.",
+      "construct (scoped C01 inventory); that each of the four prefix/suffix removal operators resolves to a function that enumerates "
+      "fully anchored candidate slices of the right side in the right direction, never takes extents from a leftmost-first regex search, "
+      "and (smallest forms) tests the empty candidate; the unset-tolerance table is decided under C03.",
+      "Trusted: peg ordered-choice semantics; rustc MIR; fancy_regex is leftmost-first. Not decided: results equal bash for all values; "
+      "completeness of the candidate set between the extremes; the pattern→regex translation.",
       ST + "PEG source table analysis + scoped construct inventory", "DESIGN.md §3 C06")
 claim("C07",
       "Decides evaluator totality (no trapping i64 operation; div/rem/pow guarded), equality of the precedence!{} table with the bash "
@@ -131,22 +136,28 @@ claim("C07",
 claim("C08",
       "Decides that compiled patterns anchor the whole string (flag group has `s` and not `m`; whole-string matchers pass both anchors; "
       "^/$ emitted under their flags), that the literal-escaping tables contain every regex metacharacter (and the parser-side table is a "
-      "superset), and that pathname expansion sorts per directory and applies the dot-file policy.",
+      "superset), that pathname expansion sorts per directory and applies the dot-file policy, and (shared with C06) that the pattern "
+      "operators of parameter expansion enumerate fully anchored candidates and never use a leftmost-first search for extents.",
       "Trusted: rustc MIR; fancy_regex flag semantics; format literals recovered from call-site snippets. Not decided: the pattern→regex "
       "translation for all patterns, collation order.",
       ST + "constant/flag inspection, SwitchInt character-table extraction, must-pass-through", "DESIGN.md §3 C08")
 claim("C13",
       "Decides that the quoting character tables cover the reader's word-breaking characters (each listed with its reason) including a "
-      "leading `#`/`~`, that each quoting style escapes what it cannot hold, and that every Display-formatted argument of the re-readable "
+      "leading `#`/`~`, that each quoting style escapes what it cannot hold, that the one-byte octal fallback of ANSI-C quoting is applied "
+      "only to characters the selecting predicate keeps within ASCII, and that every Display-formatted argument of the re-readable "
       "printers that derives from a user value passes through the quoting module (or the complete single-quote replace idiom).",
-      "Trusted: rustc MIR; char::is_ascii_control semantics. Known finding: trap -p prints the handler raw (the suite pins it as "
+      "Trusted: rustc MIR; std's documented char classes (is_ascii_control, is_control). Known finding: trap -p prints the handler raw (the suite pins it as "
       "known_failure). Not decided: the round trip itself for all strings; bash as the reader.",
       ST + "SwitchInt character-table extraction + backward flow from format arguments", "DESIGN.md §3 C13")
 claim("C14",
       "Decides that for every operator-like AST enum the literal written by Display is one the grammar maps to the same variant "
       "(program, arithmetic and test grammars; 84 rows), that the [[ ]] and test predicate tables agree, that every Display loop "
-      "reachable from FunctionDefinition separates its items, and that export / declare -f print through the same Display impl.",
-      "Trusted: rustc MIR; peg source inspection. Not decided: parse∘print fixed point, keyword skeletons of struct nodes.",
+      "reachable from FunctionDefinition separates its items, that every Display impl of an AST node reads every field of its node "
+      "(locations and one reviewed derived field excepted), that here-document terminators are printed unquoted and bodies are not "
+      "written through an indenting adaptor (both fail today: two known findings), and that export / declare -f print through the same "
+      "Display impl.",
+      "Trusted: rustc MIR; peg source inspection. Known findings: here-documents inside printed functions. Not decided: parse∘print "
+      "fixed point, keyword skeletons of struct nodes.",
       ST + "printer-table (MIR match arms) vs parser-table (peg source) comparison", "DESIGN.md §3 C14")
 claim("C15",
       "Decides that every parameter of each of the six memoised functions flows into the key of cache_get and cache_set, that workspace "
